@@ -16,19 +16,44 @@ import (
 
 // recCase: a chain with Recovery somewhere, a panic somewhere later, a request sequence (C15).
 type recCase struct {
-	Env    string   `json:"env"`                        // development | production | test
-	Built  string   `json:"assembled_in_env,omitempty"` // the instance (incl. Recovery) is assembled while this environment is set, then the environment is switched to Env (serial cases only)
-	Pre    int      `json:"pre"`                        // middleware placed before Recovery
-	Mid    []string `json:"mid"`                        // handlers between Recovery and the panic site: plain | next | write-next
-	Where  string   `json:"where"`                      // route | action | notfound | group
-	Phase  string   `json:"phase"`                      // before | after-header | after-body
-	Kind   string   `json:"kind"`                       // string | error | runtime | struct | int | abort | dep
-	Marker string   `json:"marker"`                     // unique text carried by the panic value
-	Seq    []string `json:"seq"`                        // ok | panic …
+	Env    string   `json:"env"`                                 // development | production | test
+	Built  string   `json:"assembled_in_env,omitempty"`          // the instance (incl. Recovery) is assembled while this environment is set, then the environment is switched to Env (serial cases only)
+	Pre    int      `json:"pre"`                                 // middleware placed before Recovery
+	Mid    []string `json:"mid"`                                 // handlers between Recovery and the panic site: plain | next | write-next
+	Where  string   `json:"where"`                               // route | action | notfound | group
+	Phase  string   `json:"phase"`                               // before | after-header | after-body
+	Kind   string   `json:"kind"`                                // string | error | runtime | struct | int | abort | dep
+	Buffer bool     `json:"buffering_writer_in_front,omitempty"` // the first middleware (before Recovery) substitutes the http.ResponseWriter service by a buffer and releases it after Next(); Kind may also be nilerr (an error value whose Error method cannot run)
+	Marker string   `json:"marker"`                              // unique text carried by the panic value
+	Seq    []string `json:"seq"`                                 // ok | panic …
 }
 
 type c15Missing struct{ _ int }
 type c15Struct struct{ M string }
+type c15BadErr struct{ msg string }
+
+func (e *c15BadErr) Error() string { return e.msg } // panics on a nil receiver
+
+// c15Buffer is a response writer a middleware substitutes for the real one.
+type c15Buffer struct {
+	h      http.Header
+	status int
+	body   []byte
+}
+
+func (b *c15Buffer) Header() http.Header { return b.h }
+func (b *c15Buffer) WriteHeader(c int) {
+	if b.status == 0 {
+		b.status = c
+	}
+}
+func (b *c15Buffer) Write(p []byte) (int, error) {
+	if b.status == 0 {
+		b.status = 200
+	}
+	b.body = append(b.body, p...)
+	return len(p), nil
+}
 
 func init() {
 	register(&Check{ID: "C15", Run: runC15, Replay: func(w *core.W, kind string, raw json.RawMessage) {
@@ -52,7 +77,25 @@ func genRecCase(rng *rand.Rand, env string) *recCase {
 	}
 	c.Where = []string{"route", "route", "action", "notfound", "group"}[rng.Intn(5)]
 	c.Phase = []string{"before", "before", "after-header", "after-body"}[rng.Intn(4)]
-	c.Kind = []string{"string", "error", "runtime", "struct", "int", "abort", "dep"}[rng.Intn(7)]
+	c.Kind = []string{"string", "error", "runtime", "struct", "int", "abort", "dep", "nilerr"}[rng.Intn(8)]
+	if rng.Intn(6) == 0 {
+		// a buffering middleware in front of Recovery; nothing else writes, the panic comes before any write
+		c.Buffer = true
+		if c.Pre == 0 {
+			c.Pre = 1
+		}
+		c.Phase = "before"
+		if c.Where == "action" {
+			// with a substituted writer a returned value goes to the buffer, so the context's own writer stays
+			// "unwritten" and the chain would run on into the action even for the healthy request
+			c.Where = "route"
+		}
+		for i := range c.Mid {
+			if c.Mid[i] == "write-next" {
+				c.Mid[i] = "next"
+			}
+		}
+	}
 	c.Marker = fmt.Sprintf("MK%dZ", 100000+rng.Intn(900000))
 	if c.Kind == "int" {
 		c.Marker = fmt.Sprint(100000 + rng.Intn(900000))
@@ -74,6 +117,8 @@ func (c *recCase) markerOf() string {
 		return "net/http: abort Handler"
 	case "dep":
 		return "c15Missing"
+	case "nilerr":
+		return "<nil>"
 	}
 	return c.Marker
 }
@@ -161,7 +206,26 @@ func clip(s string) string {
 	return s
 }
 
+// normalize keeps hand-written / replayed cases inside the workload's assumptions.
+func (c *recCase) normalize() {
+	if c.Buffer {
+		if c.Pre == 0 {
+			c.Pre = 1
+		}
+		c.Phase = "before"
+		if c.Where == "action" {
+			c.Where = "route"
+		}
+		for i := range c.Mid {
+			if c.Mid[i] == "write-next" {
+				c.Mid[i] = "next"
+			}
+		}
+	}
+}
+
 func judgeRec(w *core.W, c *recCase) {
+	c.normalize()
 	var events []string
 	if c.Built != "" {
 		flamego.SetEnv(flamego.EnvType(c.Built))
@@ -169,8 +233,20 @@ func judgeRec(w *core.W, c *recCase) {
 	f := flamego.NewWithLogger(io.Discard)
 	for i := 0; i < c.Pre; i++ {
 		i := i
-		f.Use(func(ctx flamego.Context) {
+		f.Use(func(ctx flamego.Context, real http.ResponseWriter) {
 			events = append(events, fmt.Sprintf("pre%d", i))
+			if c.Buffer && i == 0 {
+				buf := &c15Buffer{h: http.Header{}}
+				ctx.MapTo(buf, (*http.ResponseWriter)(nil))
+				ctx.Next()
+				// release the buffer to the real writer
+				if buf.status != 0 {
+					real.WriteHeader(buf.status)
+					_, _ = real.Write(buf.body)
+				}
+				events = append(events, fmt.Sprintf("post%d", i))
+				return
+			}
 			ctx.Next()
 			events = append(events, fmt.Sprintf("post%d", i))
 		})
@@ -234,6 +310,9 @@ func judgeRec(w *core.W, c *recCase) {
 			panic(n)
 		case "abort":
 			panic(http.ErrAbortHandler)
+		case "nilerr":
+			var e *c15BadErr
+			panic(e)
 		}
 	}
 	var panicH flamego.Handler = boom
@@ -273,7 +352,7 @@ func judgeRec(w *core.W, c *recCase) {
 	}
 	base := serve("/ok")
 	if base.escaped != nil || base.status != 200 || base.body != "fine" {
-		w.Violate("baseline", c, fmt.Sprintf("the healthy request before any panic: escaped=%v status=%d body=%q", base.escaped, base.status, base.body))
+		w.Violate("baseline", c, fmt.Sprintf("the healthy request before any panic: escaped=%v status=%d body=%q", base.escaped, base.status, clip(base.body)))
 		return
 	}
 	for k, what := range c.Seq {
@@ -304,10 +383,13 @@ func judgeRec(w *core.W, c *recCase) {
 		}
 	}
 	w.Count("kind:" + c.Kind)
+	if c.Buffer {
+		w.Count("buffering-writer-in-front-of-recovery")
+	}
 	w.Count("phase:" + c.Phase)
 	w.Count("where:" + c.Where)
 	w.Count("depth:" + nested)
-	w.NonTrivial(core.Hash64(c.Env, c.Kind, c.Phase, c.Where, nested, fmt.Sprint(c.Pre), strings.Join(c.Mid, ",")), func() interface{} { return c })
+	w.NonTrivial(core.Hash64(c.Env, c.Kind, c.Phase, c.Where, nested, fmt.Sprint(c.Pre, c.Buffer), strings.Join(c.Mid, ",")), func() interface{} { return c })
 	w.Sample(func() interface{} { return c })
 }
 
@@ -340,7 +422,7 @@ func runC15(r *core.Run) {
 	ws.Done()
 	ws.Merge()
 	flamego.SetEnv(orig)
-	for _, k := range []string{"environment-switched-after-assembly", "kind:string", "kind:error", "kind:runtime", "kind:struct", "kind:int", "kind:abort", "kind:dep", "phase:before", "phase:after-header", "phase:after-body", "where:route", "where:group", "where:action", "where:notfound", "depth:flat", "depth:nested-next", "follow-up-requests"} {
+	for _, k := range []string{"environment-switched-after-assembly", "kind:string", "kind:error", "kind:runtime", "kind:struct", "kind:int", "kind:abort", "kind:dep", "kind:nilerr", "buffering-writer-in-front-of-recovery", "phase:before", "phase:after-header", "phase:after-body", "where:route", "where:group", "where:action", "where:notfound", "depth:flat", "depth:nested-next", "follow-up-requests"} {
 		r.GateCounter(k, 100)
 	}
 	r.Gate("distinct_nontrivial", r.NonTrivialCount(), 1000)
